@@ -29,6 +29,16 @@ CallViolations(e) ==
   \cup (IF (Wants(e, "C08") \/ Wants(e, "C09")) /\ "ftab" \in DOMAIN r
           THEN {v \in WhitespaceViolations(r) : Wants(e, v[1]) \/ v[1] = "C01"} ELSE {})
   \cup (IF Wants(e, "C10") /\ "ftab" \in DOMAIN r /\ TableCoversOutput(r) /\ ~C10_Units(r) THEN {<<"C10", "units">>} ELSE {})
+  \cup (IF Wants(e, "C02") /\ r.wf /\ "tout" \in DOMAIN r THEN {<<"C02", c>> : c \in C02_Violations(r, MLEq)} ELSE {})
+  \cup (IF Wants(e, "C05") /\ r.wf /\ "marks" \in DOMAIN r /\ "tout" \in DOMAIN r
+          THEN {<<"C05", IF c = "own_line_inline_anon" THEN "own_line" ELSE c>> : c \in C05_Violations(r)} ELSE {})
+  \cup (IF Wants(e, "C07") /\ "regions" \in DOMAIN r /\ ~C07_RegionsKept(r) THEN {<<"C07", "region_verbatim">>} ELSE {})
+  \cup (IF Wants(e, "C07") /\ "ftab" \in DOMAIN r /\ Len(r.ftab) = Len(r.tin) /\ "asmtoks" \in DOMAIN r
+          THEN LET m == ToggleMarksOf(r) IN
+               (IF \E i \in 1..Len(r.tin) : m[i] /\ r.ftab[i][1] = 0 THEN {<<"C07", "region_marked">>} ELSE {})
+               \cup (IF \E i \in 1..Len(r.tin) : ~m[i] /\ r.ftab[i][1] # 0 /\ i \notin RangeOf(r.asmtoks) THEN {<<"C07", "outside_formatted">>} ELSE {})
+          ELSE {})
+  \cup (IF Wants(e, "C12") /\ "tout" \in DOMAIN r THEN {<<"C12", c>> : c \in C12_Violations(r)} ELSE {})
   \cup (IF Wants(e, "C14") /\ "plines" \in DOMAIN r THEN {<<"C14", c>> : c \in C14_Violations(r)} ELSE {})
   \cup (IF Wants(e, "C15") /\ "ftab" \in DOMAIN r THEN {<<"C15", c>> : c \in C15_Violations(r)} ELSE {})
 
